@@ -20,6 +20,9 @@ mod verif_probe_tracker_kinds {
 
     const HIST: usize = 4;
     const IDLE: usize = 2;
+    // NON-default Kalman weights (defaults: 1/20, 1/160): a tracker that gates with a filter built from other weights than it was configured with is exposed
+    const KPW: f32 = 1.0 / 8.0;
+    const KVW: f32 = 1.0 / 60.0;
 
     #[derive(Clone)]
     struct Det { bbox: Universal2DBox, feat: Option<Vec<f32>>, cid: Option<i64>, obj: usize }
@@ -63,12 +66,12 @@ mod verif_probe_tracker_kinds {
         let (u, c) = if variant & 2 == 0 { (0.4, 0.4) } else { (0.0, 0.8) };
         VisualSortOptions::default().max_idle_epochs(IDLE).kept_history_length(HIST).visual_metric(if variant & 1 == 0 { VisualSortMetricType::Euclidean(0.5) } else { VisualSortMetricType::Cosine(0.2) }).positional_metric(method)
             .visual_minimal_track_length(2).visual_minimal_area(5.0).visual_minimal_quality_use(0.45).visual_minimal_quality_collect(0.5).visual_max_observations(3).visual_min_votes(1)
-            .visual_minimal_own_area_percentage_use(u).visual_minimal_own_area_percentage_collect(c)
+            .visual_minimal_own_area_percentage_use(u).visual_minimal_own_area_percentage_collect(c).kalman_position_weight(KPW).kalman_velocity_weight(KVW)
     }
     fn make(kind: Kind, method: PositionalMetricType, shards: usize, voters: usize, variant: u8) -> T {
         match kind {
-            Kind::S => T::S(Sort::new(shards, HIST, IDLE, method, 0.05, None, 1.0 / 20.0, 1.0 / 160.0)),
-            Kind::BS => T::BS(BatchSort::new(shards, voters, HIST, IDLE, method, 0.05, None, 1.0 / 20.0, 1.0 / 160.0)),
+            Kind::S => T::S(Sort::new(shards, HIST, IDLE, method, 0.05, None, KPW, KVW)),
+            Kind::BS => T::BS(BatchSort::new(shards, voters, HIST, IDLE, method, 0.05, None, KPW, KVW)),
             Kind::V => T::V(VisualSort::new(shards, &vopts(method, variant))),
             Kind::BV => T::BV(BatchVisualSort::new(shards, voters, &vopts(method, variant))),
         }
